@@ -318,6 +318,13 @@ func ServePrincipal(w http.ResponseWriter, r *http.Request, options *ServePrinci
 }
 
 func servePrincipalPropfind(w http.ResponseWriter, r *http.Request, options *ServePrincipalOptions) error {
+	if s := r.Header.Get("Depth"); s != "" {
+		// The principal has no members, but an invalid header is still an error
+		if _, err := internal.ParseDepth(s); err != nil {
+			return &internal.HTTPError{Code: http.StatusBadRequest, Err: err}
+		}
+	}
+
 	var propfind internal.PropFind
 	if internal.IsRequestBodyEmpty(r) {
 		// An empty body means allprop
